@@ -83,6 +83,7 @@ def vacuity_twin(case):
 
 
 def main():
+    family.SAME_NAME_BRACKETS = True
     tier, seed = runner.tier(), runner.seed()
     rep = runner.Report(PROP, "translation_validation")
     st = selftest.run(seed)
